@@ -266,12 +266,15 @@ func genPanics() {
 	body("setPlusSecretContentBody", g+"graph.go", "", "setPlusSecretContent")
 	body("validateFilterBody", g+"common_filter.go", "", "validateFilter")
 	body("validateFilterTypeBody", g+"common_filter.go", "", "validateFilterType")
+	body("findBackendTLSPolicyForServiceBody", g+"backend_refs.go", "", "findBackendTLSPolicyForService")
 	body("getServicePortBody", g+"backend_refs.go", "", "getServicePort")
 	body("getIPFamilyAndPortFromRefBody", g+"backend_refs.go", "", "getIPFamilyAndPortFromRef")
 	body("convertPathTypeBody", "internal/mode/static/state/dataplane/convert.go", "", "convertPathType")
 	body("buildAuxiliarySecretsBody", "internal/mode/static/state/dataplane/configuration.go", "", "buildAuxiliarySecrets")
 	body("storeUpsertBody", "internal/mode/static/state/store.go", "changeTrackingUpdater", "upsert")
 	body("storeDeleteBody", "internal/mode/static/state/store.go", "changeTrackingUpdater", "delete")
+	body("funcPredicateUpsertBody", "internal/mode/static/state/changed_predicate.go", "funcPredicate", "upsert")
+	body("funcPredicateDeleteBody", "internal/mode/static/state/changed_predicate.go", "funcPredicate", "delete")
 	body("storeUpsertOuterBody", "internal/mode/static/state/store.go", "changeTrackingUpdater", "Upsert")
 	body("storeDeleteOuterBody", "internal/mode/static/state/store.go", "changeTrackingUpdater", "Delete")
 
